@@ -42,8 +42,10 @@ func ParseSps(payload []byte, ctx *Context) error {
 	}
 	Log.Debugf("sps=%+v", sps)
 
-	ctx.Width = (sps.PicWidthInMbsMinusOne+1)*16 - (sps.FrameCropLeftOffset+sps.FrameCropRightOffset)*2
-	ctx.Height = (2-uint32(sps.FrameMbsOnlyFlag))*(sps.PicHeightInMapUnitsMinusOne+1)*16 - (sps.FrameCropTopOffset+sps.FrameCropBottomOffset)*2
+	// 裁剪的单位和色度采样格式、是否场编码有关，见7.4.2.1.1 frame_crop_xxx_offset的说明
+	cropUnitX, cropUnitY := calcCropUnit(&sps)
+	ctx.Width = (sps.PicWidthInMbsMinusOne+1)*16 - (sps.FrameCropLeftOffset+sps.FrameCropRightOffset)*cropUnitX
+	ctx.Height = (2-uint32(sps.FrameMbsOnlyFlag))*(sps.PicHeightInMapUnitsMinusOne+1)*16 - (sps.FrameCropTopOffset+sps.FrameCropBottomOffset)*cropUnitY
 
 	ctx.Sps = sps
 	return nil
@@ -363,4 +365,26 @@ func parseSpsGamma(br *nazabits.BitReader, sps *Sps) (err error) {
 // nal2rbsp 去掉nal中的emulation_prevention_three_byte（0x000003 -> 0x0000）
 func nal2rbsp(nal []byte) []byte {
 	return bytes.Replace(nal, []byte{0x0, 0x0, 0x3}, []byte{0x0, 0x0}, -1)
+}
+
+// calcCropUnit 计算CropUnitX, CropUnitY
+//
+// ChromaArrayType为0（单色，或者4:4:4三个分量独立编码）时为1和2-frame_mbs_only_flag，
+// 否则为SubWidthC和SubHeightC*(2-frame_mbs_only_flag)
+func calcCropUnit(sps *Sps) (cropUnitX uint32, cropUnitY uint32) {
+	subWidthC, subHeightC := uint32(1), uint32(1)
+	switch sps.ChromaFormatIdc {
+	case 1:
+		subWidthC, subHeightC = 2, 2
+	case 2:
+		subWidthC, subHeightC = 2, 1
+	}
+	chromaArrayType := sps.ChromaFormatIdc
+	if sps.ChromaFormatIdc == 3 && sps.ResidualColorTransformFlag == 1 {
+		chromaArrayType = 0
+	}
+	if chromaArrayType == 0 {
+		subWidthC, subHeightC = 1, 1
+	}
+	return subWidthC, subHeightC * (2 - uint32(sps.FrameMbsOnlyFlag))
 }
